@@ -59,7 +59,8 @@ fn rand_cells(rng: &mut Rng, m: usize, ninf: bool) -> Vec<[f32; 5]> {
             for j in 0..4 {
                 r[j] = (rng.below(65) as f32 - 32.0) / 8.0;
             }
-            r[4] = if ninf { f32::NEG_INFINITY } else { -4.0 };
+            // finite wildcard scores anywhere in the range of the other cells (not just the row minimum)
+            r[4] = if ninf { f32::NEG_INFINITY } else { (rng.below(65) as f32 - 32.0) / 8.0 };
             r
         })
         .collect()
@@ -205,7 +206,7 @@ fn scan_cases(rng: &mut Rng, tier: &str, f: &mut dyn FnMut(&ScanCase) -> bool) {
                 if l > 1000 && b < 5 { continue; }
                 for rep in 0..reps {
                     let s = dna_seq(rng, l, rep % 2 == 1);
-                    let cells = rand_cells(rng, m, rep % 3 != 2);
+                    let cells = rand_cells(rng, m, rep % 2 == 0);   // odd reps: finite wildcard column AND wildcards in the sequence
                     let thr = match rep % 4 { 0 => -1000.0, 1 => 0.0, 2 => (rng.below(33) as f32 - 16.0) / 4.0, _ => f32::NEG_INFINITY };
                     let c = ScanCase { seq: to_text(&s), cells, thr, block: b, consumed: rng.below(4) };
                     if !f(&c) { return; }
